@@ -226,7 +226,7 @@ open Okane Okane.Literal
 def NumChar (c : Char) : Prop := (∃ k, k < 10 ∧ c = digitChar k) ∨ c = '-' ∨ c = '.' ∨ c = ','
 
 theorem digitChar_narrow : ∀ k, k < 10 → Narrow widthCjk (digitChar k) := by
-  decide
+  decide +kernel
 
 theorem NumChar.narrow {c : Char} (h : NumChar c) : Narrow widthCjk c := by
   rcases h with ⟨k, hk, rfl⟩ | rfl | rfl | rfl
@@ -386,15 +386,13 @@ theorem nlf_fmtDate (d : Date) : nlf (fmtDate d) := by
   · simp [h4]
   · split <;> simp [h4]
 
+theorem stripCrRev_nlf (cur : List Char) (h : nlf cur) : nlf (stripCrRev cur) := by
+  unfold stripCrRev
+  split
+  · rw [nlf_cons] at h; simp [h.2]
+  · simp [h]
+
 theorem rustLinesAux_nlf (s : List Char) : ∀ cur, nlf cur → ∀ l ∈ rustLinesAux s cur, nlf l := by
-  have key : ∀ cur : List Char, nlf cur →
-      nlf (match cur with
-        | '\r' :: cur' => cur'.reverse
-        | _ => cur.reverse) := by
-    intro cur h
-    split
-    · simp at h; simp [h.2]
-    · simp [h]
   induction s with
   | nil =>
     intro cur hcur l hl
@@ -403,14 +401,14 @@ theorem rustLinesAux_nlf (s : List Char) : ∀ cur, nlf cur → ∀ l ∈ rustLi
     | cons c cur =>
       simp only [rustLinesAux, List.mem_singleton] at hl
       subst hl
-      simpa using hcur
+      rw [nlf_reverse]; exact hcur
   | cons c cs ih =>
     intro cur hcur l hl
     rw [rustLinesAux] at hl
     by_cases hc : c = '\n'
     · rw [if_pos hc] at hl
       rcases List.mem_cons.mp hl with h | h
-      · rw [h]; exact key cur hcur
+      · rw [h]; exact stripCrRev_nlf cur hcur
       · exact ih [] nlf_nil l h
     · rw [if_neg hc] at hl
       exact ih (c :: cur) (by simp [hcur, hc]) l hl
